@@ -1206,6 +1206,48 @@ func (c *ExecCtx) runLoop(st *State, node ast.Node, label string, ls *LoopSpec, 
 		for _, iv := range evalInv(o, c.oldState) {
 			u.oblige(o, "inv.step", iv.t, pos, fmt.Sprintf("loop %s invariant preserved: %s", lkey, iv.src))
 		}
+		// lock balance of one iteration: the next iteration starts with the
+		// lock set of the loop head (a lock taken in the body and still held
+		// at the end of the iteration - e.g. a `continue` that skips the
+		// unlock - is leaked: nothing releases it later)
+		{
+			var leaked, dropped []string
+			for k := range o.locks {
+				if _, ok := exitSt.locks[k]; !ok {
+					leaked = append(leaked, k)
+				}
+			}
+			for k := range exitSt.locks {
+				if _, ok := o.locks[k]; !ok {
+					dropped = append(dropped, k)
+				}
+			}
+			sort.Strings(leaked)
+			sort.Strings(dropped)
+			if len(leaked) > 0 {
+				u.obligeStatic(o, "lock", false, pos, "loop "+lkey+": lock still held at the end of an iteration: "+strings.Join(leaked, ", "))
+			}
+			if len(dropped) > 0 {
+				u.obligeStatic(o, "lock", false, pos, "loop "+lkey+": lock held at the loop head released by an iteration: "+strings.Join(dropped, ", "))
+			}
+			var conds []*Term
+			var cks []string
+			for _, cl := range o.condLocks {
+				at := false
+				for _, hcl := range exitSt.condLocks {
+					if hcl.key == cl.key {
+						at = true
+					}
+				}
+				if !at {
+					conds = append(conds, Not(cl.cond))
+					cks = append(cks, cl.key)
+				}
+			}
+			if len(conds) > 0 {
+				u.oblige(o, "lock", And(conds...), pos, "loop "+lkey+": conditionally acquired lock still held at the end of an iteration: "+strings.Join(cks, ", "))
+			}
+		}
 		for _, hn := range frameHeaps {
 			if cur, ok := o.heaps[hn]; ok {
 				u.oblige(o, "frame.inv", c.frameFormula(hn, cur, frameAllowed), pos, "loop "+lkey+" frame preserved: "+hn)
